@@ -158,6 +158,7 @@ type (
 		Forall bool
 		Vars   []SBinder
 		Body   SExpr
+		Pats   []SExpr // optional triggers: forall x int {f(x), g(x)} :: body
 	}
 	SLet struct {
 		Name string
@@ -199,6 +200,7 @@ func (e *SCall) String() string {
 	return e.Fn.String() + "(" + strings.Join(a, ", ") + ")"
 }
 func (e *SQuant) String() string {
+	_ = e.Pats
 	q := "exists"
 	if e.Forall {
 		q = "forall"
@@ -295,9 +297,20 @@ func (sp *specParser) expr() SExpr {
 			}
 			break
 		}
+		var pats []SExpr
+		if sp.isOp("{") {
+			sp.next()
+			for !sp.isOp("}") {
+				pats = append(pats, sp.expr())
+				if sp.isOp(",") {
+					sp.next()
+				}
+			}
+			sp.expectOp("}")
+		}
 		sp.expectOp("::")
 		body := sp.expr()
-		return &SQuant{Forall: forall, Vars: vars, Body: body}
+		return &SQuant{Forall: forall, Vars: vars, Body: body, Pats: pats}
 	}
 	if sp.isKw("let") {
 		sp.next()
@@ -322,7 +335,7 @@ func (sp *specParser) typeText() string {
 	var parts []string
 	for {
 		t := sp.peek()
-		if t.k == tEOF || (t.k == tOp && (t.s == "::" || t.s == ",")) {
+		if t.k == tEOF || (t.k == tOp && (t.s == "::" || t.s == "," || t.s == "{")) {
 			break
 		}
 		parts = append(parts, t.s)
